@@ -722,6 +722,17 @@ Fixpoint bindings_distinct (l : list binding) : bool :=
   | b :: l' => negb (existsb (binding_key_eqb b) l') && bindings_distinct l'
   end.
 
+(* dual-source blending (WGSL 13.3.1.x): when one output carries @blend_src, the location outputs are exactly two,
+   both at location 0, carrying blend_src 0 and 1 *)
+Definition blend_src_complete (l : list binding) : bool :=
+  let locs := flat_map (fun b => match b with BLocation x _ bs => [(x, bs)] | _ => [] end) l in
+  if existsb (fun p => match snd p with Some _ => true | None => false end) locs then
+    match locs with
+    | [(x0, Some a); (x1, Some b)] => Z.eqb x0 0 && Z.eqb x1 0 && ((Z.eqb a 0 && Z.eqb b 1) || (Z.eqb a 1 && Z.eqb b 0))
+    | _ => false
+    end
+  else true.
+
 Definition chk_entry (m : module) (i : nat) (ep : entry_point) : list wf_violation :=
   let fn := List.length (m_functions m) + i in
   let f := ep_func ep in
@@ -733,7 +744,8 @@ Definition chk_entry (m : module) (i : nat) (ep : entry_point) : list wf_violati
   | Some r =>
     match io_bindings m (fr_type r) (fr_binding r) with
     | None => [mkviol "entry.result_unbound" fn 0]
-    | Some l => guard (bindings_distinct l) "entry.result_binding_conflict" fn 0
+    | Some l => guard (bindings_distinct l) "entry.result_binding_conflict" fn 0 ++
+                guard (blend_src_complete l) "entry.blend_src_incomplete" fn 0
     end
   end ++
   match ep_stage ep with
